@@ -226,18 +226,6 @@ func (d *decoder) offer(c *mon.Case, kind string, data []byte, dirty bool) {
 		if p := mon.Try(func() { c.Detail("re-encodes-as", d.reenc(obj)) }); p != nil {
 			c.Detail("re-encoding", "panics")
 		}
-		if d.size == 65 && head[0] == 3 {
-			// matcher of the open finding: the twist point with this x has y.a0 = 0 (so the sign bit
-			// cannot be 1) and the library answers with the point that encodes as 02||x
-			alt := append([]byte{2}, head[1:]...)
-			if _, err := bn.DecodeG2Compressed(alt); err == bn.ErrAmbiguous {
-				var re []byte
-				if mon.Try(func() { re = d.reenc(obj) }) == nil && bytes.Equal(re, alt) {
-					c.Known("g2-compressed-y0-zero-sign", "accept", "G2.UnmarshalCompressed accepts %x: y.a0 = 0 for this x, no point has sign bit 1; it re-encodes as %x", head, re)
-					return
-				}
-			}
-		}
 		c.Fail("accept", "%s accepts an invalid encoding (%s): %x", d.name, kind, head)
 		return
 	}
@@ -252,7 +240,7 @@ func (d *decoder) offer(c *mon.Case, kind string, data []byte, dirty bool) {
 	}
 	var re []byte
 	if d.compressedZeroX(head) {
-		c.Event("decode.compressed-zero-x-taken-as-infinity", 1)
+		c.Event("obs_compressed_zero_x_infinity_accepted", 1)
 	} else if c.Call(d.name+": re-encode", func() { re = d.reenc(obj) }) {
 		if !bytes.Equal(re, head) {
 			c.Fail("accept", "%s accepts %x (%s) but re-encodes it as %x: the accepted encoding is not canonical", d.name, head, kind, re)
